@@ -19,7 +19,8 @@ the same draws.  Streams (counted in the evidence):
 Input classes every stream is crossed with (improvement round): feature dtype
 float32/float64/float16, feature memory layout (contiguous, transposed storage, strided slice
 with gaps, batch slice with a storage offset, batch-expanded stride 0), lengths None / int64 /
-int32, module called directly or through a parent module whose train()/eval() is toggled, an
+int32, module called directly or through a parent module whose train()/eval() is toggled,
+autograd mode (plain, under no_grad, features that require grad), an
 enumerated grid "exactly one of the eight limits is 0, all others on" (+ all on / all off), an
 enumerated edge-size grid (T = 1, F = 1, elements of length 1) for orders 1-3, and a stream of
 *user-supplied* parameter tuples handed to apply_parameters (kind "params": knots on / beyond the
@@ -172,6 +173,15 @@ def make_feats(case):
     return embed(x, case.get("layout", "contig"))
 
 
+def grad_mode(case, x):
+    """Context for the calls: plain, under torch.no_grad(), or with features that require grad."""
+    import torch
+    g = case.get("grad", "plain")
+    if g == "requires_grad":
+        x.requires_grad_()
+    return torch.no_grad() if g == "no_grad" else contextlib.nullcontext()
+
+
 def make_lens(case):
     import torch
     if case["lens"] is None:
@@ -235,6 +245,7 @@ class Api:
 def bit_equal(a, b):
     """Same shape, dtype and bit pattern (NaN-safe, distinguishes -0.0)."""
     import torch
+    a, b = a.detach(), b.detach()
     if a.shape != b.shape or a.dtype != b.dtype:
         return False
     it = {torch.float32: torch.int32, torch.float64: torch.int64, torch.float16: torch.int16}[a.dtype]
@@ -284,7 +295,8 @@ class C08(PropertyCheck):
         "continuous ones exactly when every intermediate is float32-representable and with a tolerance otherwise "
         "(float16 features: a wider tolerance)",
         "grid_sample(bilinear, border, align_corners=False) and the order>=2 spline solve are torch "
-        "primitives; orders >= 2 are checked by the predicate only",
+        "primitives; order 2 is checked by the predicate only, order 3 additionally against the exact cubic "
+        "spline of the model where the float32 solve is well conditioned (knot >= 1 frame from the ends, T <= 40)",
     ]
     quick_budget_s = 150
     thorough_budget_s = 1200
@@ -294,7 +306,7 @@ class C08(PropertyCheck):
         self.streams = {"cases_exact": 0, "cases_tolerance": 0, "cases_with_tie": 0, "cases_oracle": 0,
                         "mask_exact": 0, "mask_tie": 0, "warp_exact": 0, "warp_tolerance": 0,
                         "apply_exact": 0, "apply_tolerance": 0, "grid_tolerance": 0,
-                        "params_cases": 0, "grid_frames": 0}
+                        "params_cases": 0, "grid_frames": 0, "grid3_tolerance": 0, "grid3_illconditioned": 0}
 
     # ------------------------------------------------------------------ generators
     def _draws(self, rng, cfg, N, style):
@@ -337,12 +349,14 @@ class C08(PropertyCheck):
 
     def _vary(self, rng, c, half_ok=True):
         """Cross a case with the input classes that do not change what is specified: dtype, memory
-        layout, dtype of the lengths, how the module is entered."""
+        layout, dtype of the lengths, how the module is entered, the autograd mode."""
         r = rng.random()
         c["dtype"] = "float32" if r < 0.64 else "float64" if r < 0.82 or not half_ok else "float16"
         c["layout"] = rng.choice(LAYOUTS[1:]) if rng.random() < 0.45 else "contig"
         c["lens_dtype"] = "int32" if rng.random() < 0.2 else "int64"
         c["entry"] = "parent" if c.get("api") == "module" and rng.random() < 0.45 else "direct"
+        r = rng.random()
+        c["grad"] = "plain" if r < 0.7 else "no_grad" if r < 0.85 else "requires_grad"
         return c
 
     def cases(self, rng, tier):
@@ -438,9 +452,16 @@ class C08(PropertyCheck):
         # -- warp_1d_grid directly (batches of rows) -------------------------------------------------------
         for i in range(n_grid):
             T = rng.choice([1, 2, 3, 5, 8, 13, 40]) if rng.random() < 0.8 else rng.choice([100, 400])
-            rows = [self._grid_row(rng, T) for _ in range(rng.choice([1, 1, 2, 3]))]
+            r = rng.random()
+            order = 1 if r < 0.62 else 3 if r < 0.85 else 2
+            if order == 3 and rng.random() < 0.75:
+                # the class on which the exact cubic spline is comparable: the moved knot >= 1 frame inside
+                T = rng.choice([3, 5, 8, 13, 20, 40])
+                rows = [self._grid_row(rng, T, inside=True) for _ in range(rng.choice([1, 2, 3]))]
+            else:
+                rows = [self._grid_row(rng, T) for _ in range(rng.choice([1, 1, 2, 3]))]
             c = dict(rows[0])
-            c.update({"kind": "grid", "T": T, "order": 1 if rng.random() < 0.8 else rng.choice([2, 3]),
+            c.update({"kind": "grid", "T": T, "order": order,
                       "max_length": rng.random() < 0.8, "api": rng.choice(["functional", "module"]),
                       "lens_float": rng.random() < 0.3})
             if len(rows) > 1:
@@ -451,10 +472,15 @@ class C08(PropertyCheck):
             for api in ("module", "functional"):
                 yield {"kind": "malformed", "bad": bad, "api": api}
 
-    def _grid_row(self, rng, T):
+    def _grid_row(self, rng, T, inside=False):
         ln = rng.randint(1, T) if rng.random() < 0.85 else rng.choice([1, T])
         r = rng.random()
         q = 4 if rng.random() < 0.7 else 1024
+        if inside:
+            ln = rng.randint(3, T)
+            src = Fraction(rng.randint(-q, (ln + 1) * q), q)
+            d = Fraction(rng.randint(q, (ln - 2) * q), q)
+            return {"len": ln, "src": frac_str(src), "flow": frac_str(d - min(max(src, Fraction(0)), Fraction(ln - 1)))}
         src = Fraction(rng.randint(-q, (ln + 1) * q), q)
         if r < 0.3:      # destination on / next to a pinned end
             d = rng.choice([Fraction(0), Fraction(ln - 1), Fraction(1, 1 << rng.randint(3, 20)),
@@ -585,10 +611,11 @@ class C08(PropertyCheck):
         def on(p):
             return p is not None and p.numel() > 0
         w0, w, v0, v, t0, t, f0, f = params
+        xd, out = x.detach(), out.detach()
         has_tw, has_fw = on(w0) and on(w), on(v0) and on(v)
         has_tm, has_fm = on(t0) and on(t), on(f0) and on(f)
         warp_only = (w0, w, v0, v, empty, empty, empty, empty)
-        base = api.apply(x, warp_only, lens) if (has_tw or has_fw) else x
+        base = api.apply(x, warp_only, lens).detach() if (has_tw or has_fw) else xd
         tpos = fpos = None
         if has_tw:
             ramp = torch.arange(T, dtype=x.dtype).view(1, T, 1).expand(N, T, Fq).contiguous()
@@ -614,14 +641,14 @@ class C08(PropertyCheck):
                  "unmasked_same": bit_equal(torch.where(m, torch.zeros_like(o), o), expect),
                  "n_masked": int(m.sum()),
                  "finite": fin,
-                 "in_lo": frac_str(float(x[n].min())), "in_hi": frac_str(float(x[n].max())),
+                 "in_lo": frac_str(float(xd[n].min())), "in_hi": frac_str(float(xd[n].max())),
                  "out_lo": frac_str(float(o.min())) if fin else "nan",
                  "out_hi": frac_str(float(o.max())) if fin else "nan",
                  "tpos": [float(p) for p in tpos[n]] if tpos is not None else None,
                  "fpos": [float(p) for p in fpos[n]] if fpos is not None else None}
             if not case.get("big"):
                 e["out"] = t2frac(o)
-                e["feats"] = t2frac(x[n])
+                e["feats"] = t2frac(xd[n])
             elems.append(e)
         return elems
 
@@ -640,22 +667,23 @@ class C08(PropertyCheck):
             if feed is None:
                 torch.manual_seed(case["draw"]["seed"])
             return RandPatch(case["cfg"], N, feed)
-        with seeded() as rp:
-            params = api.draw(x, lens)
-        u = {k: t2frac(v) for k, v in rp.got.items()}
-        out = api.apply(x, params, lens)
-        with seeded():
-            fwd = api.forward(x, lens, True)
-        with seeded():
-            ev = api.forward(x, lens, False)
-        with seeded():      # training again after evaluation: the mode switch must not stick
-            fwd2 = api.forward(x, lens, True)
+        with grad_mode(case, x):
+            with seeded() as rp:
+                params = api.draw(x, lens)
+            u = {k: t2frac(v) for k, v in rp.got.items()}
+            out = api.apply(x, params, lens)
+            with seeded():
+                fwd = api.forward(x, lens, True)
+            with seeded():
+                ev = api.forward(x, lens, False)
+            with seeded():      # training again after evaluation: the mode switch must not stick
+                fwd2 = api.forward(x, lens, True)
+            elems = self._observe(case, api, x, lens, eff, params, out)
         obs = {"rand_ok": rp.ok, "rand_shapes": rp.shapes,
                "shapes": {n: list(p.shape) for n, p in zip(("w_0", "w", "v_0", "v", "t_0", "t", "f_0", "f"), params)},
                "out_shape": list(out.shape), "out_dtype": str(out.dtype).replace("torch.", ""),
                "forward_same": bit_equal(fwd, out), "retrain_same": bit_equal(fwd2, out),
-               "eval_same": bit_equal(ev, x), "u": u,
-               "elems": self._observe(case, api, x, lens, eff, params, out),
+               "eval_same": bit_equal(ev, x), "u": u, "elems": elems,
                "input_unchanged": bit_equal(x, x_before)}
         self._stash[self.key(case)] = obs
         return obs
@@ -682,11 +710,12 @@ class C08(PropertyCheck):
             return torch.tensor([[m[i] for m in e[key]] for e in el], dtype=torch.long)
         params = (warp("warp_t", 0), warp("warp_t", 1), warp("warp_f", 0), warp("warp_f", 1),
                   masks("tmasks", 0), masks("tmasks", 1), masks("fmasks", 0), masks("fmasks", 1))
-        out = api.apply(x, params, lens)
-        again = api.apply(x, params, lens)
+        with grad_mode(case, x):
+            out = api.apply(x, params, lens)
+            again = api.apply(x, params, lens)
+            elems = self._observe(case, api, x, lens, eff, params, out)
         obs = {"out_shape": list(out.shape), "out_dtype": str(out.dtype).replace("torch.", ""),
-               "deterministic": bit_equal(out, again),
-               "elems": self._observe(case, api, x, lens, eff, params, out),
+               "deterministic": bit_equal(out, again), "elems": elems,
                "input_unchanged": bit_equal(x, x_before)}
         self._stash[self.key(case)] = obs
         return obs
@@ -700,10 +729,10 @@ class C08(PropertyCheck):
         if case["kind"] == "malformed":
             return None
         if case["kind"] == "grid":
-            if case["order"] != 1:
+            if case["order"] == 2:      # r^2 log r: not rational, no executable model
                 return None
             return {"op": "c08.grid", "case": {"T": self._grid_T(case), "eps": frac_str(EPS32),
-                                               "rows": self._grid_rows(case)}}
+                                               "order": case["order"], "rows": self._grid_rows(case)}}
         obs = self._stash.pop(self.key(case), None)
         if obs is None:
             return None
@@ -755,6 +784,26 @@ class C08(PropertyCheck):
             return [f"warp_1d_grid raised {impl['error']}: {impl.get('message')}"]
         out = []
         tol = self.pos_tol(impl["Tg"])
+        if case["order"] == 3:
+            # the exact cubic spline (Lean: warpGrid3 = every solution of the system, C08_cubic_warp_model);
+            # the float32 5x5 solve is only compared where it is well conditioned: the moved knot at least
+            # a frame from both pinned ends and T <= 40 (measured error < 3e-3 frames there)
+            for i, (row, m) in enumerate(zip(self._grid_rows(case), model["rows"])):
+                if i >= len(impl["pos"]) or not impl["finite"][i]:
+                    break
+                if impl["Tg"] > 40 or self._gap([row["src"], row["flow"]], row["len"]) < 1.0:
+                    self.streams["grid3_illconditioned"] += 1
+                    continue
+                self.streams["grid3_tolerance"] += 1
+                mp = [float(F_(self._raw_pos(g, impl["Tg"]))) for g in m["grid"]]
+                tol3 = 1e-3 * impl["Tg"]
+                bad = [(j, a, b) for j, (a, b) in enumerate(zip(impl["pos"][i], mp)) if not (abs(a - b) <= tol3)]
+                if len(mp) != len(impl["pos"][i]):
+                    out.append(f"row {i}: grid has {len(impl['pos'][i])} frames, the model {len(mp)}")
+                elif bad:
+                    out.append(f"row {i}: order-3 warp_1d_grid read position differs from the exact spline at frame "
+                               f"{bad[0][0]}: impl={bad[0][1]} model={bad[0][2]} (len={row['len']}, {len(bad)} frames)")
+            return out
         for i, (row, m) in enumerate(zip(self._grid_rows(case), model["rows"])):
             if i >= len(impl["pos"]):
                 break
@@ -1106,6 +1155,7 @@ class C08(PropertyCheck):
         eff = case["lens"] or [case["T"]] * case["N"]
         t += [f"order={case['order']}", "api=" + case["api"], "dtype=" + case.get("dtype", "float32"),
               "layout=" + case.get("layout", "contig"), "entry=" + case.get("entry", "direct"),
+              "grad=" + case.get("grad", "plain"),
               "lens=None" if case["lens"] is None else "lens=" + case.get("lens_dtype", "int64")]
         if 1 in eff:
             t.append("has_len=1")
@@ -1170,7 +1220,8 @@ class C08(PropertyCheck):
         if case["kind"] not in ("sa", "params"):
             return
         # the input classes first: the plain variant of the same call
-        for k, plain in (("layout", "contig"), ("dtype", "float32"), ("lens_dtype", "int64"), ("entry", "direct")):
+        for k, plain in (("layout", "contig"), ("dtype", "float32"), ("lens_dtype", "int64"), ("entry", "direct"),
+                         ("grad", "plain")):
             if case.get(k, plain) != plain:
                 c = dict(case)
                 c[k] = plain
